@@ -99,7 +99,7 @@ pub fn units(tier: Tier, _seed: u64) -> Vec<Unit> {
         let k = 2 * n + 3;
         u.push(unit!(format!("C05/Rsi-definition/N={n}/k={k}"), rsi_def(n, k)));
         u.push(unit!(format!("C05/MyRSI-definition/N={n}/k={k}"), myrsi_def(n, k)));
-        if n <= 4 {
+        if n <= (if tier == Tier::Quick { 2 } else { 4 }) {
             u.push(unit!(format!("C05/rising/N={n}/k={k}"), monotone_runs(n, k, true)));
             u.push(unit!(format!("C05/falling/N={n}/k={k}"), monotone_runs(n, k, false)));
             u.push(unit!(format!("C05/negation/N={n}/k={k}"), negation(n, k)));
@@ -110,7 +110,7 @@ pub fn units(tier: Tier, _seed: u64) -> Vec<Unit> {
 pub fn meta() -> Meta {
     Meta {
         functions: vec!["Rsi::{new,update,last}", "MyRSI::{new,update,last}", "Echo::{update,last}"],
-        bounds: "N in {1,2,3} (quick) / {1..5} (thorough; corollaries to 4); k = 2N+3; inputs unconstrained reals; all comparison outcomes (ties are the else-branch of `change > 0`)",
+        bounds: "N in {1,2,3} (quick; corollaries to 2) / {1..5} (thorough; corollaries to 4); k = 2N+3; inputs unconstrained reals; all comparison outcomes (ties are the else-branch of `change > 0`)",
         outside: vec!["N > 5, longer streams", "f64 rounding residue of the running sums (that is C16, not claimed)"],
         assumptions: vec![],
     }
